@@ -127,4 +127,17 @@ var Properties = map[string]*Property{
 		Stubs:   []string{"plugin.ObjTool and plugin.UI are harness mocks", "filepath.Glob returns no matches", "os.Getenv returns the empty string"},
 		Outside: []string{"arbitrary regexp syntax errors", "interactive loop, web handlers and URL parsing (net/url, net/http)", "profile-content-triggered panics in report generation beyond what C04/C05/C17 harnesses reach"},
 	},
+	"C12": {
+		ID: "C12",
+		Harnesses: []HarnessSpec{
+			{Pkg: "internal/symbolizer", Fn: "VerifC12Local", Solver: "z3", MaxDecisions: 2000, QuickTimeoutS: 300, ThoroughTimeoutS: 900,
+				What: "doLocalSymbolize/symbolizeOneMapping on a 2-mapping profile (partly symbolized, sparse symbolic function id, optional missing file / build id) against an ObjTool whose every Open/SourceLine answer is arbitrary (error, mismatching build id, no frames, 1-2 frames with arbitrary names and symbolic line numbers), with and without force: samples, values, labels, stacks, addresses, mapping ranges untouched; already symbolized mappings untouched without force; result valid with unique ids"},
+			{Pkg: "internal/symbolizer", Fn: "VerifC12Demangle", Solver: "z3", Quick: map[string]int{"c12.namelen": 3}, Thorough: map[string]int{"c12.namelen": 5}, QuickTimeoutS: 120, ThoroughTimeoutS: 900,
+				What: "demangleSingleFunction on every name of length <= n over the alphabet a ( ) < > : in three demangler option sets: the name never becomes empty, the system name is kept (github.com/ianlancetaylor/demangle interpreted from source)"},
+			{Pkg: "internal/symbolz", Fn: "VerifC12Adjust", Solver: "z3", QuickTimeoutS: 60, ThoroughTimeoutS: 60,
+				What: "symbolz.adjust(addr, offset) for all 2^128 operand pairs: returns the mathematical sum or flags overflow exactly when the sum leaves the uint64 range"},
+		},
+		Stubs:   []string{"plugin.ObjTool/ObjFile/UI are harness mocks whose answers are choice/solver variables ('all behaviours of the plug-ins, including failure at any call')", "net/url and the demangle library are interpreted from source"},
+		Outside: []string{"the symbolz HTTP exchange and its line grammar (symbolizeMapping with a post callback)", "binutils-backed ObjTool", "mode string parsing of (*Symbolizer).Symbolize", "names longer than the bound"},
+	},
 }
